@@ -444,6 +444,15 @@ def check_property(prop, tier, seed):
             if kf and kf.get('inputs') is not None and set(fl.get('inputs') or []) <= set(kf['inputs']):
                 continue
             all_fail.append(fl)
+    # bounded probes that accompany the proof on every run (never counted as proved): concrete failures are violations with inputs
+    try:
+        bfails, bnotes = cex.bounded(prop, [u for u in pc['units'] if u not in undecided_units], labels_props)
+    except Exception as e:
+        bfails, bnotes = [], ['bounded probes failed to run: %s' % e]
+    conformance_note += bnotes
+    for fl in bfails:
+        if not any(x['oid'] == fl['oid'] for x in all_fail):
+            all_fail.append(fl)
     known_printed = []
     violations = []
     for fl in all_fail:
@@ -492,7 +501,7 @@ def check_property(prop, tier, seed):
             rule_applications=rule_apps,
             pinned_trusted_bodies=pins, glue=glue_used,
             not_decided=pc.get('not_decided', []),
-            bounded=[],
+            bounded=[n for n in conformance_note if n.startswith('bounded probe')],
             teeth=mutants_report,
             obligations_generated_in_total=obligations_total,
             known_finding_obligations=known_oids,
